@@ -280,6 +280,9 @@ pub fn next_solution<'a>(sn: Rc<RefCell<SolutionNode<'a>>>)
             sn_ref.child = None;
             loop {
 
+                // A cut (!) in the body of the previous rule disables
+                // backtracking on this node: no later rule is tried.
+                if sn_ref.no_backtracking { return None; }
                 if sn_ref.rule_index >= sn_ref.number_facts_rules { return None; }
 
                 // The fallback_id saves the logic variable ID (LOGIC_VAR_ID),
